@@ -455,7 +455,7 @@ RULE = (
 def build(tier):
     E.setup()
     return CheckSpec(
-        [Sub("protect", run_case, strategy=_case, budget={"quick": 1500, "thorough": 40000}, max_wall={"quick": 55, "thorough": 2400})],
+        [Sub("protect", run_case, strategy=_case, budget={"quick": 1500, "thorough": 200000}, max_wall={"quick": 55, "thorough": 3600})],
         RULE,
         assumptions=[
             "runs on CPython 3.11 with Debian's python3-cryptography and pure-Python shims for cbor2 and filelock (validated against the RFC 8613 Appendix C vectors of tests/test_oscore.py in the self-test)",
